@@ -124,7 +124,7 @@ func clean1(s string) string {
 func childMain() {
 	api.DisableConfigDir()
 	// a runaway recursion should die quickly instead of eating 1 GB first
-	debug.SetMaxStack(256 << 20)
+	debug.SetMaxStack(64 << 20)
 	lim := syscall.Rlimit{Cur: 8 << 30, Max: 8 << 30}
 	_ = syscall.Setrlimit(syscall.RLIMIT_AS, &lim)
 	in := bufio.NewScanner(os.Stdin)
